@@ -626,15 +626,27 @@ fn oracle(m: &HLib, ctx: &mut Ctx) -> Result<(), String> {
         let cell = cells.get(&s.name).ok_or_else(|| format!("struct {} missing after import", s.name))?.read().map_err(|_| "cell lock")?;
         let layout = cell.layout.as_ref().ok_or_else(|| format!("cell {} has no layout", s.name))?;
         // (1) own shapes with their nets
+        // (with labels of different names in one shape - the `shorted-labels` sub-check - which of the names the
+        // shape ends up with is left open: it must be one of them, and none of those labels is an annotation)
+        let shorted = SHORTED.with(|c| c.get());
         let mut want: BTreeMap<(i16, i16, CShape, Option<String>), usize> = BTreeMap::new();
         for sh in &s.shapes {
-            let net = s.labels.iter().find(|l| l.layer == sh.layer && sh.contains(l.loc) == Some(true)).map(|l| l.string.to_lowercase());
+            let net = if shorted { None } else { s.labels.iter().find(|l| l.layer == sh.layer && sh.contains(l.loc) == Some(true)).map(|l| l.string.to_lowercase()) };
             *want.entry((sh.layer, sh.dt, sh.canon(&Affine::identity()), net)).or_default() += 1;
         }
         let mut got: BTreeMap<(i16, i16, CShape, Option<String>), usize> = BTreeMap::new();
         for e in &layout.elems {
             let (l, p) = layer_nums(&layers, e)?;
-            *got.entry((l, p, CShape::from_raw(&e.inner), e.net.clone())).or_default() += 1;
+            let canon = CShape::from_raw(&e.inner);
+            if shorted {
+                let allowed: Vec<String> = s.shapes.iter().filter(|sh| sh.layer == l && sh.dt == p && sh.canon(&Affine::identity()) == canon).flat_map(|sh| s.labels.iter().filter(move |lb| lb.layer == sh.layer && sh.contains(lb.loc) == Some(true)).map(|lb| lb.string.to_lowercase())).collect();
+                match &e.net {
+                    None if !allowed.is_empty() => return Err(format!("cell {}: shape {:?} on {}/{} holds labels {:?} but came back without a net", s.name, canon, l, p, allowed)),
+                    Some(n) if !allowed.contains(n) => return Err(format!("cell {}: shape {:?} on {}/{} came back with net {:?}, which none of the labels inside it ({:?}) spells", s.name, canon, l, p, n, allowed)),
+                    _ => {}
+                }
+            }
+            *got.entry((l, p, canon, if shorted { None } else { e.net.clone() })).or_default() += 1;
         }
         if got != want {
             return Err(format!("cell {}: shapes/nets differ from the GDSII data. expected-but-missing {:?}; unexpected {:?}; struct {:?}", s.name, diff(&want, &got), diff(&got, &want), s));
@@ -681,6 +693,20 @@ fn oracle(m: &HLib, ctx: &mut Ctx) -> Result<(), String> {
 }
 fn diff<K: Ord + Clone + std::fmt::Debug>(a: &BTreeMap<K, usize>, b: &BTreeMap<K, usize>) -> Vec<K> {
     a.iter().filter(|(k, n)| b.get(*k).copied().unwrap_or(0) < **n).map(|(k, _)| k.clone()).take(2).collect()
+}
+thread_local! {
+    static SHORTED: std::cell::Cell<bool> = const { std::cell::Cell::new(false) };
+}
+/// Labels of different names inside one shape (shorted nets): the shape is named by one of them, every one of
+/// them has named a shape and so none of them survives as an annotation; geometry as ever.
+fn shorted_case(src: &mut Src, ctx: &mut Ctx) -> Result<(), String> {
+    let mut m = gen_lib(src);
+    add_conflicting_labels(src, &mut m);
+    ctx.label("labels of different names inside one shape");
+    SHORTED.with(|c| c.set(true));
+    let r = oracle(&m, ctx);
+    SHORTED.with(|c| c.set(false));
+    r
 }
 fn main_case(src: &mut Src, ctx: &mut Ctx) -> Result<(), String> {
     let m = gen_lib(src);
@@ -758,12 +784,14 @@ fn run(run: &mut Run) {
     run.explore("import", run.tier.pick(16_000, 250_000), 900, &main_case);
     // the same, each case in a thread of its own (per-thread state of the code starts from scratch)
     run.explore_fresh("import", run.tier.pick(3_000, 40_000), 900, &main_case);
+    run.explore("shorted-labels", run.tier.pick(6_000, 60_000), 900, &shorted_case);
     run.explore("malformed", run.tier.pick(10_000, 60_000), 900, &malformed_case);
 }
 fn case(sub: &str) -> Option<Box<CaseFn<'static>>> {
     match sub {
         "import" => Some(Box::new(main_case)),
         "malformed" => Some(Box::new(malformed_case)),
+        "shorted-labels" => Some(Box::new(shorted_case)),
         _ => None,
     }
 }
